@@ -129,6 +129,22 @@ def run_case(case):
         r.inconc("program construction failed: %r" % (e,))
         return r.done()
     model.eval()
+    if isinstance(model, T.CompositeTransform) and len(model._transforms) >= 2:
+        # the constructor documents "an iterable of Transform objects": a generator / iterator / map must give the same
+        # composite as the list (a second pass over a one-shot iterable finds it empty)
+        parts_ = list(model._transforms)
+        for how, it in (("generator", (p_ for p_ in parts_)), ("iter", iter(parts_)), ("map", map(lambda p_: p_, parts_)),
+                        ("tuple", tuple(parts_))):
+            try:
+                alt = T.CompositeTransform(it)
+                r.count("composite_iterable_constructions")
+                if len(alt._transforms) != len(parts_) or any(a is not b for a, b in zip(alt._transforms, parts_)):
+                    r.viol("construct", "CompositeTransform built from an iterable does not hold the given parts in order",
+                           iterable=how, got=len(alt._transforms), expected=len(parts_), skeleton=skeleton(prog))
+                    break
+            except Exception as e:
+                r.viol("construct", "CompositeTransform rejects an iterable of transforms", iterable=how, exc=repr(e)[:200])
+                break
     mixed = case.get("mixed")
     dt = torch.float64
     if mixed:
@@ -323,6 +339,28 @@ def run_multiscale(case):
                 r.viol("inverse", "multiscale inverse(forward(x)) != x (scaled stages)", cfg=cfg)
         except Exception as e:
             r.viol("scaled_raises", "multiscale with scaling stages raises", cfg=cfg, exc=repr(e)[:200])
+        # one transform OBJECT used for every stage (weight sharing): still ns stages, in both directions
+        if ns >= 2:
+            try:
+                from nflows import transforms as T
+                ms3 = T.MultiscaleCompositeTransform(num_transforms=ns, split_dim=sd)
+                shared = T.PointwiseAffineTransform(shift=0.0, scale=3.0)
+                cur = tuple(shape)
+                for i in range(ns):
+                    cur = ms3.add_transform(shared, cur)
+                with torch.no_grad():
+                    y3, lad3 = ms3(x)
+                    x3, lad3b = ms3.inverse(y3)
+                r.count("multiscale_shared_stage_objects")
+                exp3 = sum(np.log(3.0) for p in range(N) for i in range(trav[p]))
+                if tuple(x3.shape) != tuple(x.shape) or not torch.allclose(x3, x, rtol=1e-12, atol=1e-12):
+                    r.viol("inverse", "multiscale inverse(forward(x)) != x when one transform object serves several stages", cfg=cfg,
+                           got_shape=list(x3.shape))
+                elif abs(float(lad3[0]) - exp3) > 1e-9 * (1 + abs(exp3)) or abs(float(lad3b[0]) + exp3) > 1e-9 * (1 + abs(exp3)):
+                    r.viol("lad_sum", "multiscale logabsdet wrong when one transform object serves several stages", cfg=cfg,
+                           got=float(lad3[0]), got_inverse=float(lad3b[0]), expected=exp3)
+            except Exception as e:
+                r.viol("scaled_raises", "multiscale with a shared stage object raises", cfg=cfg, exc=repr(e)[:200])
         if ns >= 2:
             r.cell("multiscale", shape, sd, ns)
     r.sample({"multiscale_example": case["grid"][0],
